@@ -512,3 +512,104 @@ Proof.
         replace (mvar (1 + k * N) N i j <=? 1 + k * N) with false by (symmetry; apply Z.leb_gt; lia).
         rewrite enc_map_mvar by lia. apply Z.eqb_eq.
 Qed.
+
+(* ---------- from lists of vertices to sets of vertices ---------- *)
+Lemma homogeneous_set_iff N E k b sb : 0 <= k ->
+  ((exists phi, homogeneous N E k b phi /\ (sb = true -> increasing k phi)) <-> exists S, homogeneous_set N E k b S).
+Proof.
+  intros Hk. split.
+  - intros [phi [[[Hr Hinj] He] _]]. exists (map phi (rng k)). split; [|split; [|split]].
+    + apply NoDup_map_inj_in; [|apply NoDup_rng]. intros x y Hx Hy. apply In_rng in Hx, Hy. now apply Hinj.
+    + rewrite len_map. now apply len_rng.
+    + intros v Hv. apply in_map_iff in Hv as [i [<- Hi]]. apply In_rng in Hi. now apply Hr.
+    + intros u v Hu Hv Hne. apply in_map_iff in Hu as [i1 [<- H1]]. apply in_map_iff in Hv as [i2 [<- H2]].
+      apply In_rng in H1, H2. apply He; auto. congruence.
+  - intros [S [Hnd [Hlen [Hr He]]]]. destruct (sorted_enum S N Hnd Hr) as [psi [Hin [Hinc _]]]. rewrite Hlen in *.
+    exists psi. split; [|intros _; exact Hinc].
+    assert (Hinj : forall i1 i2, 1 <= i1 <= k -> 1 <= i2 <= k -> psi i1 = psi i2 -> i1 = i2).
+    { intros i1 i2 H1 H2 Eq. destruct (Z.lt_trichotomy i1 i2) as [L|[L|L]]; [exfalso|assumption|exfalso].
+      - specialize (Hinc i1 i2 ltac:(lia) L ltac:(lia)). lia.
+      - specialize (Hinc i2 i1 ltac:(lia) L ltac:(lia)). lia. }
+    split; [split|].
+    + intros i Hi. apply Hr. now apply Hin.
+    + exact Hinj.
+    + intros i1 i2 H1 H2 Hne. apply He; [now apply Hin|now apply Hin|]. intros Eq. apply Hne. now apply Hinj.
+Qed.
+
+(* T2 for CliqueFormula: satisfiable iff G has a k-clique (with or without symmetry breaking) *)
+Theorem kclique_sat_iff N E k sb l : kclique_ir N E k sb = Some l ->
+  ((exists a, irs_hold a l = true) <-> exists S, homogeneous_set N E k true S).
+Proof.
+  intros Hl. rewrite (kclique_sat_iff_raw N E k sb l Hl). apply homogeneous_set_iff.
+  unfold kclique_ir in Hl. destruct (Z.ltb_spec k 0); [discriminate|assumption].
+Qed.
+
+(* RamseyWitnessFormula as it is: satisfiable iff G has a k-clique or an independent set of size k *)
+Theorem ramlb_as_is_sat_iff N E k s sb l : ramlb_as_is N E k s sb = Some l ->
+  ((exists a, irs_hold a l = true) <->
+   (exists S, homogeneous_set N E k true S) \/ (exists S, homogeneous_set N E k false S)).
+Proof.
+  intros Hl. rewrite (ramlb_as_is_sat_iff_raw N E k s sb l Hl).
+  assert (Hk : 0 <= k). { unfold ramlb_as_is in Hl. destruct (Z.ltb_spec k 0); [discriminate|assumption]. }
+  rewrite <- !(homogeneous_set_iff N E k _ sb Hk). split.
+  - intros [[|] [phi H]]; [left|right]; now exists phi.
+  - intros [[phi H]|[phi H]]; [exists true|exists false]; now exists phi.
+Qed.
+
+(* the documented statement, for the code as it is, under the extra hypothesis k = s *)
+Theorem ramlb_partial N E k s sb l : k = s -> ramlb_as_is N E k s sb = Some l ->
+  ((exists a, irs_hold a l = true) <->
+   (exists S, homogeneous_set N E k true S) \/ (exists S, homogeneous_set N E s false S)).
+Proof. intros <- Hl. now apply (ramlb_as_is_sat_iff N E k k sb l). Qed.
+
+(* ... and it fails without it: two isolated vertices, k = 2, s = 3 (DESIGN.md D15) *)
+Theorem ramlb_refuted : exists N E k s sb l,
+  ramlb_as_is N E k s sb = Some l /\ (exists a, irs_hold a l = true) /\
+  ~ ((exists S, homogeneous_set N E k true S) \/ (exists S, homogeneous_set N E s false S)).
+Proof.
+  exists 2, [], 2, 3, true. eexists. split; [reflexivity|]. split.
+  - exists (fun v => (v =? 2) || (v =? 5)). vm_compute. reflexivity.
+  - intros [[S [Hnd [Hlen [Hr He]]]]|[S [Hnd [Hlen [Hr He]]]]].
+    + destruct S as [|u [|v [|w S]]]; unfold len in Hlen; cbn [length] in Hlen; try lia.
+      inversion Hnd as [|? ? Hu _]; subst. assert (u <> v) by (intros ->; apply Hu; now left).
+      specialize (He u v (or_introl eq_refl) (or_intror (or_introl eq_refl)) H). discriminate.
+    + assert (Hle : (length S <= length (rng 2))%nat).
+      { apply NoDup_incl_length; [assumption|]. intros v Hv. apply In_rng. now apply Hr. }
+      unfold rng in Hle. rewrite length_zrange in Hle. unfold len in Hlen. lia.
+Qed.
+
+(* T2 for the documented behaviour, with sets *)
+Theorem ramlb_spec_sat_iff N E k s sb l : 0 <= N -> ramlb_spec N E k s sb = Some l ->
+  ((exists a, irs_hold a l = true) <->
+   (exists S, homogeneous_set N E k true S) \/ (exists S, homogeneous_set N E s false S)).
+Proof.
+  intros HN Hl. rewrite (ramlb_spec_sat_iff_raw N E k s sb l HN Hl).
+  destruct (ramlb_spec_some N E k s sb l Hl) as [Hk [Hs _]].
+  rewrite (homogeneous_set_iff N E k true sb Hk), (homogeneous_set_iff N E s false sb Hs). reflexivity.
+Qed.
+
+(* ---------- T2 for BinaryCliqueFormula ---------- *)
+Lemma homogeneous_ext N E k b phi psi : (forall i, 1 <= i <= k -> phi i = psi i) ->
+  homogeneous N E k b phi -> homogeneous N E k b psi.
+Proof.
+  intros Hx [[Hr Hinj] He]. split; [split|].
+  - intros i Hi. rewrite <- Hx by assumption. now apply Hr.
+  - intros i1 i2 H1 H2. rewrite <- !Hx by assumption. now apply Hinj.
+  - intros i1 i2 H1 H2 Hne. rewrite <- !Hx by assumption. now apply He.
+Qed.
+Lemma increasing_ext k phi psi : (forall i, 1 <= i <= k -> phi i = psi i) -> increasing k phi -> increasing k psi.
+Proof. intros Hx H i1 i2 A1 A2 A3. rewrite <- !Hx by lia. now apply H. Qed.
+
+Theorem kcliquebin_sat_iff N E k sb l : kcliquebin_ir N E k sb = Some l ->
+  ((exists a, irs_hold a l = true) <-> exists S, homogeneous_set N E k true S).
+Proof.
+  intros Hl. assert (Hk : 1 <= k /\ 1 <= N).
+  { unfold kcliquebin_ir in Hl. destruct (Z.ltb_spec k 1); [discriminate|]. destruct (Z.ltb_spec N 1); [discriminate|]. lia. }
+  destruct (bm_bits_spec N ltac:(lia)) as [Hb Hle].
+  rewrite <- (homogeneous_set_iff N E k true sb ltac:(lia)). split.
+  - intros [a H]. apply (kcliquebin_char a N E k sb l Hl) in H. now exists (bin_vertex a N).
+  - intros [phi [Hh Hinc]]. exists (enc_bits (bm_bits N) phi). apply (kcliquebin_char _ N E k sb l Hl).
+    assert (Hx : forall i, 1 <= i <= k -> phi i = bin_vertex (enc_bits (bm_bits N) phi) N i).
+    { intros i Hi. unfold bin_vertex. destruct Hh as [[Hr _] _]. specialize (Hr i Hi). rewrite bm_value_enc; lia. }
+    split; [now apply (homogeneous_ext N E k true phi)|]. intros Hs. apply (increasing_ext k phi); auto.
+Qed.
